@@ -132,7 +132,7 @@ Section Spec.
     | QAllMatch p => OBool (forallb (holds p) l)
     | QSelectMatch p => OList (filter (holds p) l)
     | QPartitionMatch p => OLists (filter (holds p) l) (filter (fun e => negb (holds p e)) l)
-    | QTraverseStop o j => OList (firstn j (s_traverse o l))
+    | QTraverseStop o j => OListN (firstn j (s_traverse o l)) (Nat.min (S j) (length (s_traverse o l)))
     | QHeight | QFirstMatch _ => OUnit          (* not determined by the abstract map *)
     end.
 
